@@ -9,7 +9,8 @@
 (* caller's arguments unchanged.                                           *)
 (*   Oracle  key, val                                                      *)
 (*   begin   new history (tid)                                             *)
-(*   Op      op, s, m, q, r, f, w, w2, key, val, args_changed              *)
+(*   Op      op, s, m, q, r, f, w, w2, key, val, args_changed,             *)
+(*           held_changed (steps whose returned arrays changed since)      *)
 (***************************************************************************)
 EXTENDS TraceBase, History
 
@@ -36,7 +37,7 @@ ResetH(e) == /\ kern' = [s \in Slots |-> Dead]
              /\ wrap' = [w \in Wrappers |-> [m |-> e.wmodel[w], store |-> "mono"]]
              /\ dm' = [x \in Models \X QSets |-> <<"garbage">>]
              /\ dict' = [r \in Requests |-> TRUE]
-             /\ ret' = NoRet /\ nops' = 0
+             /\ ret' = NoRet /\ held' = NoHeld /\ nops' = 0
 
 TInit == Init /\ l = 1 /\ skip = FALSE /\ oracle = <<>> /\ TLCSet(1, 0) /\ TLCSet(2, 0)
 TNext ==
@@ -56,6 +57,9 @@ TNext ==
             ELSE IF e.key # "" /\ e.val # oracle[e.key] THEN Reject(e, "depends-on-history", ToString(<<e.key, "fresh", oracle[e.key], "got", e.val>>))
             \* inputs are not modified
             ELSE IF e.args_changed THEN Reject(e, "arguments-modified", e.key)
+            \* HeldStable, observed: every array returned by an earlier step of this history (the process keeps them
+            \* all) still reads as it did when it was returned; held_changed lists the steps whose array changed
+            ELSE IF e.held_changed # <<>> THEN Reject(e, "returned-array-modified-later", ToString(e.held_changed))
             ELSE Act(e) /\ skip' = FALSE /\ UNCHANGED oracle
        ELSE Reject(e, "unknown-event", e.ev)
 =============================================================================
